@@ -14,9 +14,18 @@
 (* class may leave the property only in the ways the named deviations      *)
 (* predict (Explained); the deviations themselves are what the check       *)
 (* reports as design-level findings: TLC must refute PlainlyAccepted.      *)
+(*                                                                         *)
+(* Round 2: ClassSel "alias" are classes that OVERRIDE handlers which      *)
+(* their base class also exposes under alias names, OptPoolSel "alias" is  *)
+(* a pool that mentions every node kind.  The rebuilt class must give      *)
+(* every attribute name the body Python's lookup gives it in the original  *)
+(* class (HandlersPreserved) and behave like it on every node kind         *)
+(* (Explained / ShippedUsageFine).  CollectMode "byname" is the negative   *)
+(* control (C05_OptGen_Buggy_CollectByName): TLC must find a history on    *)
+(* which the rebuilt class answers with the wrong body.                    *)
 (***************************************************************************)
 EXTENDS C05_Optimizer, Json
-CONSTANTS OptPoolSel, OptArgSel, MaxLen, Steps, ClassSel, FirstSel
+CONSTANTS OptPoolSel, OptArgSel, MaxLen, Steps, ClassSel, FirstSel, CollectMode
 VARIABLES cfg, hist, tab, ms, v, fa
 
 OptClasses == <<
@@ -24,10 +33,19 @@ OptClasses == <<
     [name |-> "OptRenamerStock",  m |-> "ident", args |-> FALSE, stock |-> TRUE],
     [name |-> "OptRenamerKey",    m |-> "ident", args |-> FALSE, stock |-> FALSE],
     [name |-> "OptCollectorArgs", m |-> "coll",  args |-> TRUE,  stock |-> TRUE],
-    [name |-> "OptCountKey",      m |-> "count", args |-> FALSE, stock |-> FALSE]
+    [name |-> "OptCountKey",      m |-> "count", args |-> FALSE, stock |-> FALSE],
+    \* overriding classes (marking bodies), own two-component key, no extra arguments
+    [name |-> "OptOvIdent", m |-> "ident", args |-> FALSE, stock |-> FALSE, base |-> "identity",
+     ov |-> << "map_sum", "map_quotient", "map_bitwise_or", "map_min", "map_left_shift",
+               "map_bitwise_not" >>],
+    [name |-> "OptOvCollector", m |-> "bcoll", args |-> FALSE, stock |-> FALSE, base |-> "collector",
+     ov |-> << "map_constant", "map_sum", "map_quotient", "map_list" >>],
+    [name |-> "OptOvCount", m |-> "count", args |-> FALSE, stock |-> FALSE, base |-> "combine",
+     ov |-> << "map_sum", "map_left_shift", "map_bitwise_not" >>]
 >>
-Classes == IF ClassSel = "all" THEN SeqToSet(OptClasses)
-           ELSE { OptClasses[1], OptClasses[2], OptClasses[3] }
+Classes == CASE ClassSel = "all" -> { OptClasses[i] : i \in 1..5 }
+             [] ClassSel = "alias" -> { OptClasses[6], OptClasses[7], OptClasses[8] }
+             [] OTHER -> { OptClasses[1], OptClasses[2], OptClasses[3] }
 
 \* a class whose handlers use the extra arguments cannot have them dropped
 Valid(cls, o) == cls.args => (~o.da /\ ~o.dk)
@@ -53,13 +71,24 @@ OptPool == CASE OptPoolSel = "small" -> << x, S1, N("Product", << S1, S1 >>), K4
                                            N("Sum", << y, K4f >>) >>
              [] OptPoolSel = "core"  -> << x, K4, K4f, S1, S1f, N("Product", << S1, S1 >>),
                                            N("Product", << S1, y >>), CSE0(S1) >>
+             \* every node kind, the aliased ones next to the kind whose handler they share
+             [] OptPoolSel = "alias" -> <<
+                    x, K4, S1,
+                    N("Product", << S1, S1 >>),
+                    N("Max", << B("FloorDiv", S1, y), B("Remainder", x, K4), B("Quotient", x, y) >>),
+                    N("Min", << N("BitAnd", << x, y >>), N("BitOr", << x, y >>), N("BitXor", << x, K1 >>) >>),
+                    N("LogOr", << N("LogAnd", << x, y >>), U("LogNot", x), U("BitNot", y) >>),
+                    B("LShift", B("RShift", x, K1), B("Power", x, K4)),
+                    IfE(Cmp(x, "<", y), Call(ff, << x, S1 >>), B("Sub", tt, K1)),
+                    N("Tup", << x, Look(oo, "p"), CSE0(S1), N("List", << y, K1 >>) >>),
+                    CallKw(ff, << N("Product", << x, y >>) >>, << KwArg("k1", N("Max", << x, K1 >>)) >>) >>
 OptArgs == CASE OptArgSel = "two"  -> << NoArgs, Args(<< IntV(1) >>, << >>) >>
              [] OptArgSel = "three" -> << NoArgs, Args(<< IntV(1) >>, << >>),
                                           Args(<< >>, << [name |-> "k", v |-> IntV(1)] >>) >>
              [] OptArgSel = "core" -> << NoArgs, Args(<< IntV(1) >>, << >>), Args(<< IntV(2) >>, << >>),
                                          Args(<< >>, << [name |-> "k", v |-> IntV(1)] >>) >>
 
-Sem == SemOf(cfg)
+Sem == SemOfMode(cfg, CollectMode)
 TestCls == cfg[Len(cfg)].cls
 ArgOk(q) == IF TestCls.args THEN SigFits(Sem, OptArgs[q]) ELSE q = 1
 
@@ -90,6 +119,9 @@ PlainlyAccepted == v = "OK"
 \* class with its own key (the shipped usage) must be plainly fine, whatever the history
 ShippedUsageFine ==
     (Len(cfg) = 1 /\ ~cfg[1].cls.stock /\ ~Coll) => v = "OK" \/ v = "computed-twice"
+
+\* the rebuilt class binds every handler name to the body the original class binds it to
+HandlersPreserved == CollectionFaithful(CollectMode, TestCls)
 
 OptBits(o) == << o.da, o.dk, o.ir, o.ic, o.ik >>
 Emit == Len(hist) >= 1 => PrintT(ToJson([opt |-> cfg, h |-> hist]))
